@@ -191,6 +191,9 @@ def run(chk):
     chk.assumptions.extend(ASSUMPTIONS)
     ec.regenerate(chk)
     vlean.check_theorems(chk, "Poupool.Properties.C10", THEOREMS)
+    # the decisions of the three eco polls as the loop model takes them = the polls regenerated from the tree
+    from checks import decisions_common as _dc
+    _dc.tie(chk, ["eco_polls"])
     quick = chk.tier == "quick"
     # 3. EcoMode / Timer correspondence
     bad, dist, n = ec.eco_correspondence(chk, 400 if quick else 5000, 40)
